@@ -58,7 +58,7 @@ static Body* const g_body = &g_root;
 extern "C" {
 // the whole algorithm, exactly as the public entry point does it (context constructed by the algorithm itself)
 void vp_reduce(int b, int e, int grain) {
-  g_next_id = 1;
+  g_next_id = 1; g_root.seq = 0; g_root.len = 0; g_root.shape = 0;
   R range(b, e, (unsigned long)grain);
 #ifdef VP_DETERMINISTIC
   tbb::parallel_deterministic_reduce(range, *g_body, VP_PART());
@@ -91,6 +91,8 @@ int vp_task_is_right(task* t) {
 #endif
 }
 int vp_task_parent_refs(task* t) { return static_cast<SR*>(t)->my_parent->m_ref_count.load(std::memory_order_relaxed); }
+// (also keeps the node's struct type in the IR so that the harness can allocate typed objects)
+int vp_node_refs(SR::tree_node_type* n) { return n->m_ref_count.load(std::memory_order_relaxed) + (int)n->m_child_stolen.load(std::memory_order_relaxed) + (n->left_body.id != 0); }
 unsigned vp_sizeof_task() { return sizeof(SR); }
 unsigned vp_sizeof_node() { return sizeof(SR::tree_node_type); }
 }
